@@ -309,9 +309,20 @@ func runConsulStorePlan(c *pbt.Case, p ConsulStorePlan) {
 		_ = json.Unmarshal(val, &info)
 		return info.Hostname, s
 	}
+	var lastSample, graceUntil time.Time // (see the election unit: a stalled process proves nothing about durations)
 	sample := func(when string) {
 		h, _ := holderName()
 		now := time.Now()
+		if !lastSample.IsZero() && now.Sub(lastSample) > 2*time.Second {
+			graceUntil = now.Add(3 * time.Second)
+			c.Label("process-was-stalled")
+		}
+		lastSample = now
+		if now.Before(graceUntil) {
+			for _, n := range nodes {
+				lastHeld[n.Name] = now
+			}
+		}
 		if h != "" {
 			lastHeld[h] = now
 		}
